@@ -5,6 +5,7 @@ import Verif.Gen.C03Tables
 import Verif.Proofs.HtmlWs
 import Verif.Proofs.HtmlOptional
 import Verif.Proofs.HtmlGlue
+import Verif.Proofs.HtmlRawText
 /-!
 # C03 — HTML minification preserves the parsed document
 
@@ -427,6 +428,109 @@ example :
     (startPost {} {} "body".toList [] none).docOpen = [] := by decide +kernel
 
 end OptionalTags
+
+/-! ## what a sub-minifier returns is only used when it stays inside its element (html.go `rawTextEndsAtEnd`) -/
+section RawText
+open Verif.Model.Html Verif.Spec.HtmlRawText Verif.Proofs.HtmlRawText
+
+/-- **raw_text_contained.**  The contract "the result of the sub-minifier for the content of a raw text element is
+    again content of that element" is enforced by the host, for ANY sub-minifier `sub`: the bytes written for the
+    text of a `style` or `iframe` element are either the original bytes, or bytes `out` that the HTML standard's
+    RAWTEXT tokenisation reads back as exactly the content of the element — in `out` + `</name>` + anything, the
+    first appropriate end tag is the one right behind `out`.  (The decision in html.go is taken with the lexer of
+    parse/html; `spec_of_rawEnd` shows that the lexer ends a RAWTEXT element wherever the standard does.) -/
+theorem raw_text_contained (o : Opts) (ext : Ext) (sub : Sub) (st st' : St) (data out tail : List Char)
+    (rest : List HTok) (hd : st.dropEnd = false) (ht : st.dropText = false)
+    (hn : st.rawTag = "style".toList ∨ st.rawTag = "iframe".toList)
+    (hs : step o ext sub st (.text data false) rest = .ok (st', out)) :
+    out = data ∨
+    rawTextEnd st.rawTag 0 (out ++ '<' :: '/' :: (st.rawTag ++ '>' :: tail)) = out.length := by
+  have hh : (hashIs st.rawTag "style" || hashIs st.rawTag "script" || hashIs st.rawTag "iframe") = true := by
+    rcases hn with e | e <;> (rw [e]; decide)
+  have hne : st.rawTag.isEmpty = false := by rcases hn with e | e <;> (rw [e]; rfl)
+  have hlow : st.rawTag.all isLower = true := by rcases hn with e | e <;> (rw [e]; decide)
+  have hns : st.rawTag ≠ "script".toList := by rcases hn with e | e <;> (rw [e]; decide)
+  unfold step at hs
+  simp only [hd, ht, hne, hh, Bool.false_eq_true, if_false, Bool.false_and, Bool.not_false, Bool.and_self,
+    if_true, Except.ok.injEq, Prod.mk.injEq] at hs
+  rw [← hs.2]
+  unfold rawTextOut
+  cases sub with
+  | none => left; rfl
+  | some f =>
+    simp only
+    split
+    · next hr =>
+      right
+      simp only [rawTextEndsAtEnd, beq_iff_eq] at hr
+      have := spec_of_rawEnd st.rawTag tail hlow hns _ 0 (by simpa using hr)
+      simpa using this
+    · left; rfl
+
+/-- the same decision for all three elements whose content goes to a sub-minifier, at the level of the lexer
+    (`script` included: the escaped / double escaped script data states are those of the lexer, see K-C03-17) -/
+theorem raw_text_relexed (sub : Sub) (name mt data : List Char) :
+    rawTextOut sub name mt data = data ∨ rawTextEndsAtEnd name (rawTextOut sub name mt data) = true := by
+  unfold rawTextOut
+  cases sub with
+  | none => left; rfl
+  | some f =>
+    simp only
+    split
+    · next hr => right; exact hr
+    · left; rfl
+
+/-- a kept conditional comment is either written unchanged or gets a minified inner part that contains neither
+    `-->` nor `--!>` (it cannot end the comment early) -/
+theorem cond_comment_inner_safe (o : Opts) (ext : Ext) (data text out : List Char)
+    (h : commentOut o ext data text = .ok out) :
+    out = data ∨ out = [] ∨ ∃ b e inner, out = data.take b ++ inner ++ data.drop e ∧
+      bytesContain "-->".toList inner = false ∧ bytesContain "--!>".toList inner = false := by
+  have ok : ∀ x, (Except.ok x : Except String (List Char)) = .ok out → out = x := by
+    intro x e; cases e; rfl
+  unfold commentOut at h
+  split at h
+  · left; exact ok _ h
+  · split at h
+    · split at h
+      · split at h
+        · simp only at h
+          split at h
+          · simp only [bind, Except.bind] at h
+            split at h
+            · cases h
+            · next inner _ =>
+              split at h
+              · left; exact ok _ h
+              · next hc =>
+                right; right
+                simp only [Bool.or_eq_true, not_or, Bool.not_eq_true] at hc
+                exact ⟨_, _, inner, ok _ h, hc.1, hc.2⟩
+          · left; exact ok _ h
+        · left; exact ok _ h
+      · split at h
+        · left; exact ok _ h
+        · right; left; exact ok _ h
+    · right; left; exact ok _ h
+
+/-- regressions for /repo 1557146, 3c66722, 6635adc -/
+example :
+    rawTextEndsAtEnd "style".toList "a{b:< /style >}".toList = true ∧
+    rawTextEndsAtEnd "style".toList "a{b:</style >}".toList = false ∧
+    rawTextEndsAtEnd "style".toList "a{b:<\\/style>}".toList = true ∧
+    rawTextEndsAtEnd "script".toList "s='</script>'".toList = false ∧
+    rawTextEndsAtEnd "script".toList "<!--<script>x".toList = false ∧
+    rawTextEndsAtEnd "script".toList "<!--<script>x</script>-->".toList = true ∧
+    rawTextEndsAtEnd "iframe".toList "</IFRAME\n".toList = false ∧
+    textCollapsed "<&#115;cript>alert(1)<&#47;script>".toList = "<&#115;cript>alert(1)<&#47;script>".toList ∧
+    textCollapsed "a  <&amp; b".toList = "a <&amp; b".toList ∧
+    (commentOut { keepSpecialComments := true }
+        [("html".toList, "<a title=\"--&gt;\">x</a>".toList, "<a title=\"-->\">x</a>".toList)]
+        "<!--[if IE]><a title=\"--&gt;\">x</a><![endif]-->".toList
+        "[if IE]><a title=\"--&gt;\">x</a><![endif]".toList).toOption =
+      some "<!--[if IE]><a title=\"--&gt;\">x</a><![endif]-->".toList := by decide +kernel
+
+end RawText
 
 /-! ## the tag classes of html/table.go against the default rendering -/
 
